@@ -27,7 +27,8 @@ type Q struct {
 }
 
 type C37Case struct {
-	Qs []Q `json:"qs"`
+	Qs       []Q  `json:"qs"`
+	ReadOnly bool `json:"read_only,omitempty"` // the live server's flavour: the trace is opened with InitReadOnly
 }
 
 const heavy = "WITH RECURSIVE c(x) AS (SELECT 1 UNION ALL SELECT x+1 FROM c WHERE x < 30000000) SELECT count(*) FROM c"
@@ -105,6 +106,15 @@ func queryPool(dir string) []string {
 		"SELECT sqlite_version(), random()",
 		"SELECT * FROM trace ORDER BY random()",
 		"WITH t AS (SELECT * FROM trace) SELECT * FROM t, t AS u LIMIT 2000000",
+		// statements that start like a read and write all the same
+		"SELECT * FROM pragma_optimize",
+		"SELECT * FROM pragma_wal_checkpoint('TRUNCATE')",
+		"SELECT * FROM pragma_incremental_vacuum(10)",
+		// one row that alone is larger than the byte cap (40 cells of 4 KB), first or later
+		"SELECT " + strings.Repeat("hex(zeroblob(2048)), ", 39) + "hex(zeroblob(2048))",
+		"SELECT " + strings.Repeat("hex(zeroblob(2048)), ", 39) + "ID FROM trace",
+		"SELECT 1, 2 UNION ALL SELECT hex(zeroblob(40000)), hex(zeroblob(40000))",
+		"SELECT " + strings.Repeat("printf('%.*c', 3000, 'y'), ", 30) + "1",
 	}
 }
 
@@ -116,7 +126,7 @@ func genC37(r *kit.Rand, tier kit.Tier) C37Case {
 		n = r.Range(1, 10)
 	}
 
-	var c C37Case
+	c := C37Case{ReadOnly: r.Chance(1, 3)}
 
 	for i := 0; i < n; i++ {
 		q := Q{SQL: pool[r.Intn(len(pool))]}
@@ -250,6 +260,12 @@ func execC37(c C37Case, env *kit.Env) kit.Outcome {
 
 	rowCap, byteCap := daisen2.VerifDataQueryCaps()
 	tr := daisen2.VerifOpenTrace(path)
+	if c.ReadOnly {
+		// the writable open above has put the file into WAL mode, as the tracer of a
+		// running simulation does; the live server then opens it read-only
+		tr.Close()
+		tr = daisen2.VerifOpenTraceReadOnly(path)
+	}
 
 	defer tr.Close()
 
@@ -332,6 +348,19 @@ func execC37(c C37Case, env *kit.Env) kit.Outcome {
 		if out.Violation != nil {
 			return out
 		}
+	}
+
+	out.Steps = uint64(len(c.Qs))
+	out.Fault("query-cancelled", cancels)
+	out.Probe("queries-refused-or-failed", refused)
+	out.Probe("queries-answered", len(c.Qs)-refused)
+	out.NonTrivial = len(c.Qs) >= 1
+	out.Shape = fmt.Sprint(c.ReadOnly, c.Qs)
+	out.Sample = map[string]any{"queries": len(c.Qs), "refused": refused, "cancelled": cancels, "read_only": c.ReadOnly}
+
+	if c.ReadOnly {
+		out.Probe("read-only-server-flavour", 1)
+		return out // a read-only server builds no indexes
 	}
 
 	// the server's own write path end to end
